@@ -15,9 +15,9 @@ const mutStart = 1000000000
 
 func runC12(c *Ctx) {
 	c.Rule = "real server processes on a scratch store: mutation ids, label allocations (nextlabel) interleaved with announcements of arbitrary labels (maxlabel) and new versions, version/repo/instance ids; clean stops, abrupt exits and a crash armed exactly at the store write that persists the next mutation-id bound (stride boundary); ids collected across processes must be strictly increasing / pairwise distinct and equal the Lean state machines'. non-trivial = history contains a restart or crash; distinct by event sequence"
-	nh := 4
+	nh := 2
 	if c.Thorough {
-		nh = 30
+		nh = 20
 	}
 	for h := 0; h < nh; h++ {
 		c12Mutids(c, h)
@@ -67,7 +67,11 @@ func c12Mutids(c *Ctx, h int) {
 	var issued []uint64
 	var hist []string
 	events := 0
-	steps := 260 + r.Intn(200)
+	// run lengths between restarts: short, around one stride, and between strides (a bound that is persisted
+	// wrongly at a stride crossing only shows after a later restart)
+	runLens := []int{1, 3, 99, 100, 101, 150, 199, 201, 5, 250, 102}
+	sinceRestart, runIdx := 0, r.Intn(len(runLens))
+	steps := 900 + r.Intn(300)
 	for i := 0; i < steps; i++ {
 		st := strings.Fields(c.Model.Ask("mut.state")) // ok cur saved persisted
 		cur, _ := strconv.Atoi(st[1])
@@ -96,7 +100,9 @@ func c12Mutids(c *Ctx, h int) {
 				events++
 				c.Count("mutid.crash-at-boundary")
 			}
-		case k < 4:
+		case sinceRestart >= runLens[runIdx%len(runLens)] || k < 1:
+			sinceRestart = 0
+			runIdx++
 			how := "SHUTDOWN"
 			if r.Bool() {
 				how = "EXIT"
@@ -122,6 +128,7 @@ func c12Mutids(c *Ctx, h int) {
 				return
 			}
 			issued = append(issued, id)
+			sinceRestart++
 			hist = append(hist, fmt.Sprint(id))
 			c.AskCmp("repoT.newMutationID", "mut.alloc", fmt.Sprintf("ok %d", id))
 			c.Count("mutid.alloc")
@@ -134,6 +141,7 @@ func c12Mutids(c *Ctx, h int) {
 			break
 		}
 	}
+	c.Evals += len(issued)
 	c.Eval("mutids "+strings.Join(hist, " "), events > 0)
 }
 
